@@ -14,11 +14,11 @@ ID = 'C15'
 LEVEL = 'model_checking'
 
 
-def _coselected(shape, cards, i, j) -> bool:
+def _coselected(shape, cards, i, j, par=None, link=None) -> bool:
     """Closed form: i and j are selected together in every configuration iff every relation on the
     tree path between them forces all of its children (min == k)."""
-    par = R.parents_of(shape)
-    link = R.ref_links(shape, cards)
+    par = R.parents_of(shape) if par is None else par
+    link = R.ref_links(shape, cards) if link is None else link
 
     def chain(x):
         out = [x]
@@ -34,8 +34,8 @@ def _coselected(shape, cards, i, j) -> bool:
     return True
 
 
-def sound(shape, cards) -> bool:
-    m = R.build(shape, cards)
+def sound(shape, cards, m=None) -> bool:
+    m = R.build(shape, cards) if m is None else m
     feats = _index(m)
     idx = {id(f): i for i, f in enumerate(feats)}
     from .common import result_twice
@@ -56,10 +56,11 @@ def sound(shape, cards) -> bool:
     for si, s in enumerate(members):
         for i in s:
             setof[i] = si
+    par_, link_ = R.parents_of(shape), R.ref_links(shape, cards)
     for s in members:
         for a in s:
             for b in s:
-                if a < b and not _coselected(shape, cards, a, b):
+                if a < b and not _coselected(shape, cards, a, b, par_, link_):
                     return False                         # same set => always co-selected
     for ri, (p, cs) in enumerate(rels):
         if len(cs) == 1 and cards[ri][0] == 1 and cards[ri][1] == 1:
@@ -155,7 +156,14 @@ def batches(tier, seed):  # noqa: F811
     n = 3 if tier == 'quick' else 4
     total = len(R.shapes(n)) * (len(R.shapes(n)) - 1)
     step = total // 4 + 1
-    return _orig_batches(tier, seed) + [('batch_pairs', [n, lo, lo + step, seed + lo]) for lo in range(0, total, step)]
+    b = _orig_batches(tier, seed) + [('batch_pairs', [n, lo, lo + step, seed + lo]) for lo in range(0, total, step)]
+    if tier == 'quick':
+        b += [('batch_larger', ['random', seed * 3 + i, 40, 6, 16, 0]) for i in range(2)]
+        b += [('batch_larger', ['corpus', seed, 48, 0, 0, 150000, i, 2]) for i in range(2)]
+    else:
+        b += [('batch_larger', ['random', seed * 3 + i, 250, 6, 40, 0]) for i in range(8)]
+        b += [('batch_larger', ['corpus', seed, 100000, 0, 0, 10 ** 9, i, 16]) for i in range(16)]
+    return b
 
 
 def info(tier):
@@ -171,3 +179,16 @@ def info(tier):
 
 def batch_pairs(max_n, lo, hi, seed):
     return pair_batch(__name__, 'sound', max_n, lo, hi, seed, 'two-models-in-sequence')
+
+
+# -- larger inputs: random shapes beyond the exhaustive bound, shipped corpus --------------------------------
+from .larger import replay_model  # noqa: E402,F401
+
+
+def larger_check(shape, cards, m):
+    return [] if sound(shape, cards, m) else ['atomic sets are not a partition into always-co-selected groups containing the mandatory chains (closed form)']
+
+
+def batch_larger(kind, seed, count, lo_n, hi_n, max_bytes, part=0, parts=1):
+    from . import larger
+    return larger.batch_models(__name__, 'larger_check', 'atomic-sets-larger', kind, seed, count, lo_n, hi_n, max_bytes, part, parts)
